@@ -64,13 +64,20 @@ def attr_src(a, container=False):
     if k == "flatten": return "#[iden(flatten)] "
     raise ValueError(k)
 
+import zlib
+def other_attr(key, indent=""):
+    """an attribute that has nothing to do with the derive (doc comment / allow), placed in front of the helper attribute
+    for two thirds of the items: the names a type spells do not depend on what else is written on it"""
+    h = zlib.crc32(key.encode()) % 3
+    return "" if h == 0 else ("/// documented\n" + indent if h == 1 else "#[allow(dead_code)] ")
+
 def type_src(case):
     d, plan = case["def"], case["plan"]
     L = []
     fn = "obs_static" if d["kind"] == "enumdef" or d.get("derive") == "IdenStatic" else "obs"
     if d["kind"] == "enum":
         L.append("#[derive(Clone, Copy, %s)]" % d["derive"])
-        if d["crename"]["k"] != "none": L.append(attr_src(d["crename"]).strip())
+        if d["crename"]["k"] != "none": L.append(other_attr("c:" + d["name"]) + attr_src(d["crename"]).strip())
         L.append("pub enum %s {" % d["name"])
         vals = []
         meths = set()
@@ -84,7 +91,7 @@ def type_src(case):
             else:
                 body = {"unit": "", "tuple": "(u8, bool)", "named": "{ a: u8 }"}[v["shape"]]
                 val = "%s::%s%s" % (d["name"], v["n"], {"unit": "", "tuple": "(7, true)", "named": " { a: 7 }"}[v["shape"]])
-            L.append("    %s%s%s," % (attr_src(a), v["n"], body))
+            L.append("    %s%s%s%s," % (other_attr("v:" + d["name"] + v["n"], "    ") if a["k"] != "none" else "", attr_src(a), v["n"], body))
             vals.append(val)
         L.append("}")
         if meths:
@@ -94,7 +101,7 @@ def type_src(case):
         assert [v["n"] for v in d["vs"]] == plan["vals"]
     elif d["kind"] == "unit":
         L.append("#[derive(Clone, Copy, %s)]" % d["derive"])
-        if d["crename"]["k"] != "none": L.append(attr_src(d["crename"]).strip())
+        if d["crename"]["k"] != "none": L.append(other_attr("u:" + d["name"]) + attr_src(d["crename"]).strip())
         L.append("pub struct %s;" % d["name"])
         vals = [d["name"]]
     else:
